@@ -266,6 +266,19 @@ func TestC14_SchedulesExhaustive(t *testing.T) {
 		full := append([]int{0, 0, 0, 0}, order...)
 		run(Sched{Writers: [][]Store{{{0, small[3].id}, {0, small[4].id}}, {{0, small[5].id}}}, Order: full}, "exhaustive-overwrite")
 	})
+	// same-size bundles stored back to back under one URL, read after every step by the same cache
+	// instance: a reader that identifies an entry by anything but its content serves a stale bundle
+	twins := bySize("twin")
+	for rep := 0; rep < 3; rep++ {
+		interleavings(2, stepsPerStore, func(order []int) {
+			full := append([]int{0, 0, 0, 0}, order...)
+			run(Sched{Writers: [][]Store{{{0, twins[0].id}, {0, twins[1].id}}, {{0, twins[2].id}}}, Order: full}, "exhaustive-same-size-overwrite")
+		})
+	}
+	for rep := 0; rep < 40; rep++ {
+		run(Sched{Writers: [][]Store{{{0, twins[rep%8].id}, {0, twins[(rep+1)%8].id}, {0, twins[(rep+2)%8].id}, {0, twins[(rep+3)%8].id}}},
+			Order: []int{0, 0, 0, 0, 0, 0, 0, 0, 0, 0, 0, 0, 0, 0, 0, 0}}, "same-size-overwrite-chain")
+	}
 	if stats.Tier() == "thorough" {
 		for _, assign := range [][3]int{{0, 0, 0}, {0, 0, 1}} {
 			interleavings(3, stepsPerStore, func(order []int) {
@@ -291,11 +304,16 @@ func TestC14_SchedulesRandom(t *testing.T) {
 		for w := 0; w < nW; w++ {
 			var stores []Store
 			for k := 0; k < rapid.IntRange(1, 2).Draw(rt, "stores"); k++ {
-				sz := rp.Pick(rt, "size", "small", "small", "small", "medium")
+				sz := rp.Pick(rt, "size", "small", "small", "twin", "twin", "medium")
 				cands := bySize(sz)
-				b := cands[rapid.IntRange(0, len(cands)-1).Draw(rt, "bundle")].id
-				for used[b] { // every store writes a distinct bundle so that values identify stores
-					b = (b + 1) % 24
+				k := rapid.IntRange(0, len(cands)-1).Draw(rt, "bundle")
+				b := cands[k].id
+				for tries := 0; used[b] && tries < len(cands); tries++ { // every store writes a distinct bundle so that values identify stores
+					k = (k + 1) % len(cands)
+					b = cands[k].id
+				}
+				if used[b] {
+					b = bySize("small")[(w*5+k)%24].id
 				}
 				used[b] = true
 				stores = append(stores, Store{URL: rapid.IntRange(0, 1).Draw(rt, "url"), Bundle: b})
